@@ -450,6 +450,8 @@ var c05Strings = []string{
 	"", "a", "x", "$x", "$$", "m", "fmt", "io.Reader", "x y", "tab\there", "new\nline", `quo"te`, "back`tick", `back\slash`,
 	"\x00", "\xff\xfe", "日本語", "'", `"`, " ", "\r", "a/b", "github.com/x/y", "$x.String()", "f($*args)", "1.18", "^foo$",
 	"// comment", "}", "{", ",", "ir.File{}", "int64(1)", strings.Repeat("long", 40),
+	// line breaks of every kind, alone and inside text (a printer that chooses between quoted and raw literals must not lose them)
+	"\r\n", "a\r\nb", "line1\r\nline2\r\n", "mixed\n\rorder", "x\ry", "two\n\nlines", "\n", "trailing\n", "\tindented\r\n\ttext", "quo\"te\r\nand `tick`",
 }
 
 var c05Ints = []int{0, 1, 2, 3, -1, 7, 10, 42, 100, 4095, -7, 1 << 31, -(1 << 31), 1<<63 - 1, -1 << 63}
